@@ -512,6 +512,7 @@ class Session:
             # the op refers to a node the model no longer has: generator bug, not a finding
             self.log[-1] += f"  [skipped: {e!r}]"
             self.count("skipped_ops")
+            self.last_ok = False
             return findings
         self.count(f"op:{op['op']}:{outcome.kind}" + (f":{outcome.why}" if outcome.kind == "refuse" else ""))
         followed = True
@@ -621,6 +622,7 @@ class Session:
             if ferrs or self._foreign_snapshot(other) != snap:
                 findings.append(Finding("C01:wf_graph", "after move_to(<node of another tree>) the other tree is changed/broken: "
                                         + "; ".join(ferrs[:2])))
+        self.last_ok = outcome.kind == "ok" and exc is None and followed
         if not followed and not findings:
             try:
                 self.resync()
